@@ -53,6 +53,16 @@ class Model:
 class InboundSim(PeerSim):
     family = "inbound"
 
+    def hook_raise_p(self, label, hname):
+        # injected application failures: on_message() (the message was handed over all the same) and the state hook
+        # announcing RESENDREQ_AWAITING (the request is on the wire, the state is set: one request, gap tracked)
+        p = self.cfg.get("p_hook_raise", 0.0)
+        if hname == "on_message":
+            return p
+        if hname == "on_state_change" and self.state_hook_arg == ConnectionState.RESENDREQ_AWAITING:
+            return p
+        return 0.0
+
     def setup_family(self):
         cfg = self.cfg
         self.peer.auto.update(testreq=False, resend=False, logout=False)
